@@ -99,6 +99,11 @@ def show(line, verdict):
             k = p.next(); key = txt(p.next()); v = txt(p.next())
             print("  %-7s %-10s = %s" % (KN[k], key, v))
         print("raw body:", txt(p.next())); print("uri:", txt(p.next()))
+        print("body kind:", ["none", "form", "json"][p.next()])
+        ni = p.next()
+        for _ in range(ni):
+            k = p.next(); key = txt(p.next()); v = txt(p.next())
+            print("  put %-7s %-10s = %s" % (KN[k], key, v))
         print("jbody:", txt(p.next()))
         ec = p.next(); ob = p.next()
         print("err class:", ec); print("out:", show_thrift(ob) if ec == 0 else ob.hex())
